@@ -12,18 +12,26 @@ derivations within the stated deviation bounds are enumerated (never sampled).
     * bare and twin are both parsed by the REAL Execer.parse with the same bound-name context; identical
       location-free AST dumps = same program (subprocess argument lists byte for byte) -> agreement;
     * differing trees are not judged on looks: both programs are EXECUTED (XSH.execer.exec, recording callable
-      aliases for every command word, every assignment of return codes to the chain's commands) and only a
-      differing trace (calls with argv / stdin text / $V seen, order, files left in the scratch cwd, exception
-      class + returncode) is a violation;
+      aliases for every command word, every assignment of return codes to the chain's commands, the default and the
+      per-command raise flag setting) and only a differing trace (calls with argv / stdin text / $V seen, order,
+      files left in the scratch cwd, exception class + returncode) is a violation;
+    * one precisely known tree difference is decided per minimal form instead of per pair: trees that become
+      identical once the `in_boolop=True` keyword (chain-operand marking) is dropped.  The minimal pair with that
+      difference is run under every setting; if it runs identically the whole class is accepted (today it does:
+      the marking has no run-time effect for ![...]), if not it is a violation;
     * bare rejected (SyntaxError) while the twin is accepted, or the reverse, is a violation; both rejected is
       agreement (and is counted, not hidden);
     * a fixed slice of agreeing pairs is executed too (evidence that equal trees do mean equal runs, and that the
       twins really run the commands).
+  Keys: a failing pair is minimised over the generator's own derivation (position -> top level, drop segments,
+  drop features, plain words, fewer words, `||`/`and`/`or` -> `&&`, each step kept only if the same failure class
+  persists) and the key names classes of the MINIMAL pair:
+  A:<failure>:<position class>:<operators>:<special words>:<python-parsable | needs-recovery>.
 PART B (termination / totality).  Every string up to length n over the token alphabet of the design is fed to
 `XSH.execer.parse(s, ctx=set())`.  Allowed outcomes: a tree, None (empty input), SyntaxError.  Anything else is a
-violation: another exception type (keyed by type + function that raised + minimised input), more than PARSE_BUDGET
-calls of parser.parse for one input, or more than WALL_S seconds (signal alarm) - so a spinning recovery loop is
-reported, it does not hang the check.  The same guards wrap every parse of part A.
+violation: another exception type (keyed by type + xonsh function that raised + canonical minimal input), more than
+PARSE_BUDGET calls of parser.parse for one input, or more than WALL_S CPU seconds (signal alarm) - so a spinning
+recovery loop is reported, it does not hang the check.  The same guards wrap every parse of part A.
 
 Does NOT require (never flagged):
   * that any particular string is accepted: a pair where BOTH the bare line and its hand-wrapped twin are rejected
@@ -32,10 +40,14 @@ Does NOT require (never flagged):
     words are ca/cb/cc/ta/tb/tc/pa/pb/pc/ia/cz, never bound; only ok, ctxm, ev, xs (used by the enclosing Python
     statements and @(ev)) and names assigned by the position scaffolding (n, i, fn) are bound;
   * identical trees: a tree that differs from the twin's but runs identically under every return-code assignment
-    is accepted (counted as ast_diff_benign);
+    and flag setting is accepted (counted as agree-trace / boolop-mark-benign);
   * what the commands do, what a redirect writes, return-code / raise semantics of chains (C04/C05/C07): both
     sides run under the same settings and only have to agree with each other;
-  * behaviour of a trailing `&` at run time (background jobs are not executed here; trees only);
+  * behaviour of a trailing `&` at run time (background jobs are not executed here; trees only - a differing tree
+    of a pair with `&` is attributed to the same pair without `&` when that one fails, else reported as a tree
+    difference);
+  * repeatability of threaded pipelines (a trace difference of a pair with threaded commands counts only if it
+    shows three times in a row);
   * error messages, line/column numbers, how many retries detection needs (below the budget).
 """
 
@@ -141,7 +153,7 @@ def _init_worker():
     _FAILS.clear()
     _MINI.clear()
     _CONFIRM.clear()
-    _EXEC_LEFT[0] = MAX_DIFF_EXEC_PER_WORKER
+    _EXEC_LEFT[0] = MAX_DIFF_EXEC_PER_WORKER[0]
 
 
 def _where(e):
@@ -284,7 +296,7 @@ _FAILS = {}
 _MINI = {}
 _CONFIRM = {}
 _EXEC_LEFT = [0]
-MAX_DIFF_EXEC_PER_WORKER = 4000  # pairs with differing trees that one worker will decide by execution
+MAX_DIFF_EXEC_PER_WORKER = [6000]  # pairs with differing trees that one worker will decide by execution (set per tier)
 
 
 def run_settings(chain, full):
@@ -662,25 +674,27 @@ def b_outcome(s):
 
 
 def b_minimise(s, kind, sig):
-    """Shortest-first deletion, then replacement by earlier alphabet symbols, while the signature persists."""
+    """Canonical small witness of the same failure: the shortest subsequence of the input (ties: alphabet order) that
+    fails with the same signature, then a bracketed group / longer piece replaced by the plain word `a`, then every
+    symbol replaced by the earliest alphabet symbol that keeps the failure.  Inputs are <= 6 symbols: <= 64 subsequences."""
+    subs = set()
+    for r in range(len(s) + 1):
+        for idx in itertools.combinations(range(len(s)), r):
+            subs.add("".join(s[i] for i in idx))
     cur = s
+    for c in sorted(subs, key=lambda t: (len(t), [_ORDER.get(ch, 99) for ch in t])):
+        if len(c) >= len(s):
+            break
+        if b_outcome_memo(c) == (kind, sig):
+            cur = c
+            break
     changed = True
     while changed:
         changed = False
-        for i in range(len(cur)):
-            c = cur[:i] + cur[i + 1 :]
-            o = b_outcome_memo(c)
-            if (o[0], o[1]) == (kind, sig):
-                cur, changed = c, True
-                break
-        if changed:
-            continue
-        # a bracketed group / longer piece replaced by the plain word `a` (shorter, so this terminates)
         for ln in (2, 3, 4):
             for i in range(len(cur) - ln + 1):
                 c = cur[:i] + "a" + cur[i + ln :]
-                o = b_outcome_memo(c)
-                if (o[0], o[1]) == (kind, sig):
+                if b_outcome_memo(c) == (kind, sig):
                     cur, changed = c, True
                     break
             if changed:
@@ -690,8 +704,7 @@ def b_minimise(s, kind, sig):
         for i in range(len(cur)):
             for sym in FULL[: _ORDER.get(cur[i], 0)]:
                 c = cur[:i] + sym + cur[i + 1 :]
-                o = b_outcome_memo(c)
-                if (o[0], o[1]) == (kind, sig):
+                if b_outcome_memo(c) == (kind, sig):
                     cur, changed = c, True
                     break
             if changed:
@@ -773,6 +786,7 @@ def run(ctx):
     )
 
     # ---- part A
+    MAX_DIFF_EXEC_PER_WORKER[0] = ctx.pick(6000, 60000)
     _BLOCKS = gen.blocks(ctx.thorough) if only != "B" else gen.blocks(False)[2:]
     if only:
         ctx.assumptions.append(f"PARTIAL RUN: XV_C03_ONLY={only}")
